@@ -15,7 +15,7 @@ RULE = ("scenes from the seed: 6..8 (thorough 6..10) cells per axis; per axis a 
         "none/pml, pml/pec, pec/pml, pml/pmc, pmc/pml, periodic/periodic, pec/pec, pmc/pmc, pec/pmc, none/none with at "
         "least one PML face, PML thickness 1..3 per face independently (interior >= 2 cells), uniform or non-uniform "
         "grid, 0..1 source (electric/magnetic point dipole, uniform or Gaussian plane source; CW or Gaussian pulse; "
-        "OnOffSwitch default / delayed start / interval 2 / fixed on-steps — the forced quick scene always has a magnetic "
+        "dipoles axis-aligned or tilted by azimuth/elevation angles; OnOffSwitch default / delayed start / interval 2 / fixed on-steps — the forced quick scene always has a TILTED magnetic "
         "dipole with a delayed-start switch, i.e. an H-injecting source on the non-default-switch path of the reverse "
         "updates) inside the interior, random initial fields in the interior (zero in the layers, wall-projected), random isotropic/"
         "diagonal inv_eps and scalar/diagonal inv_mu (lossless), T = 4..8 (thorough 4..25) steps, recorder "
@@ -68,7 +68,9 @@ def gen_case(rng, thorough, small=False):
                                                    direction=rng.choice(["+", "-"]), amp=rng.uniform(0.5, 2.0),
                                                    pos=[rng.randint(lo[a], hi[a]) for a in range(3)],
                                                    switch=rng.choice(["default", "start", "interval", "fixed", "start"]),
-                                                   profile=rng.choice(["cw", "cw", "pulse"]))
+                                                   profile=rng.choice(["cw", "cw", "pulse"]),
+                                                   tilt=[rng.choice([0.0, 0.0, 30.0, -50.0, 75.0]),
+                                                         rng.choice([0.0, 20.0, -35.0])])
     c["eps_tier"] = rng.choice([1, 3])
     c["mu_tier"] = rng.choice([0, 3])
     c["T"] = rng.randint(4, 25 if thorough else 8)
@@ -108,7 +110,9 @@ def make_source(c, vol):
     else:
         o = f.PointDipoleSource(partial_grid_shape=(1, 1, 1), wave_character=wave, polarization=s["pol"],
                                 source_type="electric" if s["kind"] == "dipole_e" else "magnetic", temporal_profile=prof,
-                                switch=sw, static_amplitude_factor=s["amp"], name="src")
+                                switch=sw, static_amplitude_factor=s["amp"], name="src",
+                                azimuth_angle=float(s.get("tilt", [0.0, 0.0])[0]),
+                                elevation_angle=float(s.get("tilt", [0.0, 0.0])[1]))
         if c["widths"]:
             cons.append(o.place_at_center(vol))
         else:
@@ -404,7 +408,9 @@ def one_case(ctx, c, sample=False, k=True):
     npml = len(c["spec"])
     ctx.case(sample={kk: c.get(kk) for kk in ("shape", "faces", "spec", "source", "T", "recorder", "twice", "seed")} if sample else None,
              nontrivial=("sweep", c["seed"], c["recorder"]), recorded_twice=bool(c.get("twice")), n_pml_faces=npml, T=c["T"], recorder=c["recorder"],
-             grid="nonuniform" if c["widths"] else "uniform", source=(c["source"] or {}).get("kind", "none"), switch=(c["source"] or {}).get("switch", "-"),
+             grid="nonuniform" if c["widths"] else "uniform", source=(c["source"] or {}).get("kind", "none"),
+             tilted=bool(c["source"]) and c["source"]["kind"].startswith("dipole") and any(c["source"].get("tilt", [0, 0])),
+             switch=(c["source"] or {}).get("switch", "-"),
              max_thickness=max(c["spec"].values()), has_periodic="periodic" in c["faces"].values(),
              has_wall=any(v in ("pec", "pmc") for v in c["faces"].values()))
     if d:
@@ -420,7 +426,8 @@ FORCED = [
     # PML on all six faces with mixed thicknesses: every edge and corner overlap
     dict(shape=[8, 7, 7], faces={k: "pml" for k in Y.FACES},
          spec={"min_x": 2, "max_x": 3, "min_y": 1, "max_y": 2, "min_z": 3, "max_z": 1}, widths=None,
-         source=dict(kind="dipole_m", pol=0, axis=0, direction="+", amp=1.3, pos=[3, 2, 4], switch="start", profile="cw"),
+         source=dict(kind="dipole_m", pol=0, axis=0, direction="+", amp=1.3, pos=[3, 2, 4], switch="start", profile="cw",
+                     tilt=[30.0, 20.0]),
          eps_tier=1, mu_tier=0, T=5, twice=True),
     dict(shape=[7, 6, 6], faces={"min_x": "pml", "max_x": "pml", "min_y": "periodic", "max_y": "periodic", "min_z": "pec", "max_z": "pml"},
          spec={"min_x": 2, "max_x": 1, "max_z": 3}, widths=None,
